@@ -142,23 +142,22 @@ CLAIMS = {
         design='8/C12', note=TB),
     'C13': dict(
         level='proof',
-        technique='Coq: general rejection theorems (all shapes) + kernel evaluation of the COMPLETE outcome tree of the reset model for shipped and small parameter sets (finite instances, bound in the statement) + full-tree comparison with the code',
+        technique='Coq: GENERAL well-formedness theorems for all eight reset functions (all admissible shapes / parameters, all random outcomes), general rejection theorems + kernel evaluation of the COMPLETE outcome tree of the reset model for shipped and small parameter sets + full-tree comparison with the code',
         text='Coq theorems (Props/C13.v): GENERAL (no bound on the shape): every outcome of `empty` (all flags), of `dynamic_obstacles` (any requested number: ValueError or exactly that many), of `teleport` (exactly two telepods of one colour, never an error) of `keydoor` (locked door in a full wall column, key and agent left of it, exit right of it) and of `memory` (memory_outcome: EVERY cell of the grid for every height >= 5, odd width >= 5, colour set and draw -- T-maze, two exits of different colours of the set in the top corners, two beacons of the colour of exactly one of them, agent in the middle) is a well-formed state -- wall boundary, the advertised inventory, agent on an inner floor cell -- for every admissible shape and every resolution of the random draws (Lemmas/C13W.v, C13M.v: exact characterisation of the walled room, sampling without replacement, placement on distinct floor cells); for each reset function the parameter conditions under which it raises ValueError whatever the randomness '
              '(all shapes); draws raise only ValueError; and, by kernel evaluation (vm_compute) of `leaves`, for 13 of the 21 shipped parameter sets '
              '(regenerated from the YAML files with numpy\'s linspace splits on every run) and 46 small parameter sets of all eight functions: EVERY '
-             'resolution of every random choice yields a state satisfying the property\'s statement (wf_check) or ValueError.  These are proofs for the '
-             'listed finite instances, not for all shapes: the unbounded claim is supported by T2 -- recorded draws on shapes 1x1..16x16 with parameter '
+             'resolution of every random choice yields a state satisfying the property\'s statement (wf_check) or ValueError.  In addition GENERAL theorems for `crossing` (never an error; Lemmas/C13X.v), `rooms` and `memory_rooms` (every shape and split lists 0 :: inner ++ [last]; ValueError or well-formed; Lemmas/C13R.v) -- so every reset function has an unbounded theorem; the kernel-evaluated instances remain as cross-checks and the tie to the code is T2 -- recorded draws on shapes 1x1..16x16 with parameter '
              'sweeps and the complete outcome tree of the REAL code (ScriptedRng DFS, ~25k leaves quick) compared with the model\'s leaves -- and the '
              'well-formedness oracle on every real outcome.  Shipped nine-room / memory-room / 9x9 sets are too large for the kernel in the quick tier.',
         design='8/C13', note=TB + ' np.linspace results are inputs of the model (oracle), recomputed by the harness exactly as the code does.'),
     'C14': dict(
         level='proof',
         technique='Coq: plan lemma (walk => action sequence of the real move/turn dynamics) + verified breadth-first check + kernel evaluation over COMPLETE outcome trees for walk-only parameter sets; exhaustive search over histories of the real step function for the rest; known findings K1/K2',
-        text='Coq theorems (Props/C14.v): GENERAL: every initial state of `empty` (every shape >= 4x4, all flags, all random outcomes) is winnable by a sequence of move actions over floor cells (rectangle walk + the exact room shape of C13 + the plan lemma), and so is every initial state of `memory` (every shape, colour set and outcome: up the middle column and along row 1 to the exit carrying the colour of the beacons, never through the other exit); walk_plan -- a 4-connected walk over enterable cells is realised by one move action per step under '
+        text='Coq theorems (Props/C14.v): GENERAL: every initial state of `empty` (every shape >= 4x4, all flags, all random outcomes) is winnable by a sequence of move actions over floor cells (rectangle walk + the exact room shape of C13 + the plan lemma), and so is every initial state of `memory` (every shape, colour set and outcome: up the middle column and along row 1 to the exit carrying the colour of the beacons, never through the other exit), of `crossing` (every odd shape, river count and outcome: the staircase of openings connects the rooms between the rivers), of `rooms` (every shape and split lists with consecutive entries at least two apart: the grid of rooms is connected through the passages; or ValueError when there are fewer than two floor cells) and of `keydoor` (every shape >= 4x5 and outcome: an explicit action sequence under the shipped chain [move_agent; turn_agent; actuate_door; pickndrop] -- fetch the key, unlock the door, walk to the exit); walk_plan -- a 4-connected walk over enterable cells is realised by one move action per step under '
              'chain [move_agent; turn_agent] for any heading, visiting exactly the walk; bfsP soundness; hence can_walk_to = true yields a plan to the goal '
              'that never enters a blocking or terminating cell; by kernel evaluation of `leaves`: EVERY initial state of 20 walk-only parameter sets '
              '(shipped crossing/empty/memory/four-rooms-7x7 from the regenerated Gen/Configs.v, and small ones) is winnable; K1 has a kernel-checked '
-             'witness.  These are proofs for the listed finite instances.  Everything else (key-door: fetch key, unlock; teleport; moving obstacles with all '
+             'witness.  Not proved in general: teleport, dynamic_obstacles (a game against the random obstacles), memory_rooms (false: K1).  Everything (key-door, teleport, moving obstacles with all '
              'random outcomes; larger rooms) is decided by best-first search over ALL histories of the REAL step function (all actions x all random '
              'outcomes via ScriptedRng) from the complete reset outcome tree when small, seeds otherwise; an exhausted search is an unwinnable state. '
              'Two genuine findings are recorded in known_findings.json (K1 memory_rooms, K2 dense dynamic_obstacles) with class predicates; any other '
